@@ -884,6 +884,24 @@ fn par(rep: &mut Report, seed: u64, scale: u64) {
                     if d1 != d2 {
                         problems.push(format!("par_extend with duplicate keys differs from extend ({ndup} pairs over {modulus} keys)"));
                     }
+                    // by reference, into a destination that already holds some of the keys (the later value wins, as with extend)
+                    {
+                        let over: Vec<(u64, u64)> = seq.keys().take(20).map(|k| (*k, 777)).chain((0..10u64).map(|i| (900_000 + i, i))).collect();
+                        let mut b1 = build(None);
+                        let mut b2 = build(None);
+                        pool.install(|| b1.par_extend(over.par_iter().map(|(k, v)| (k, v))));
+                        b2.extend(over.iter().map(|(k, v)| (k, v)));
+                        if b1 != b2 || over.iter().any(|(k, v)| b1.get(k) != Some(v)) {
+                            problems.push("par_extend from (&K, &V) over keys that are already there differs from extend (the later value must win)".into());
+                        }
+                        let mut t1: PS = PS::with_hasher(VBuild { kind: hk, seed: 3 });
+                        let mut t2: PS = PS::with_hasher(VBuild { kind: hk, seed: 3 });
+                        for k in seq.keys().take(30) { t1.insert(*k); t2.insert(*k); }
+                        let ks: Vec<u64> = over.iter().map(|x| x.0).collect();
+                        pool.install(|| t1.par_extend(ks.par_iter()));
+                        t2.extend(ks.iter());
+                        if t1 != t2 { problems.push("set par_extend from &T over elements that are already there differs from extend".into()); }
+                    }
                     // … and into destinations that are EMPTY but have room (built with capacity, cleared, emptied in place by
                     // retain — possibly with an emptied old table still allocated), for maps and sets, owned and by reference
                     for shape in 0..4u8 {
@@ -2623,8 +2641,26 @@ fn unusual_calls(rep: &mut Report, seed: u64) {
     if !c09.is_empty() { rep.fail("C09", c09.join("; "), "drain_filter on u64 elements (no drop glue), n inserts, predicate |k, ttl| { log; *ttl -= 1; k % 3 == 0 }, take, drop".into()); }
 }
 
+/// a builder whose one-shot `hash_one` is NOT what its streaming hasher computes (ahash under specialisation is like
+/// that, and says so): every hash the crate takes of a key must come by the same route, or moved elements get lost
+#[derive(Default, Clone)]
+pub struct TwoRoutes;
+impl std::hash::BuildHasher for TwoRoutes {
+    type Hasher = ZH;
+    fn build_hasher(&self) -> ZH {
+        ZH::default()
+    }
+    fn hash_one<T: std::hash::Hash>(&self, x: T) -> u64 {
+        use std::hash::Hasher;
+        let mut h = ZH::default();
+        x.hash(&mut h);
+        h.finish().rotate_left(17) ^ 0x5555_5555_5555_5555
+    }
+}
+
 fn zsh(rep: &mut Report, seed: u64, scale: u64) {
     unusual_calls(rep, seed);
+    zsh_run::<TwoRoutes>(rep, "a builder whose hash_one differs from its streaming hasher", seed, 300 * scale);
     zsh_run::<ZB>(rep, "BuildHasherDefault (zero-sized)", seed, 600 * scale);
     zsh_run::<griddle::hash_map::DefaultHashBuilder>(rep, "griddle's DefaultHashBuilder", seed, 400 * scale);
 }
